@@ -697,6 +697,9 @@ class Merge(MultiCrossBlock):
             alignment = normalize_alignment(who, alignment)
         for b in blocks:
             if b.alignment != alignment:
+                if b.alignment == AlignmentMode.EQUAL_PREAMBLE and len(b.crossings) <= 1:
+                    # A single crossing (e.g., a `CrossBlock`) has nothing to align by itself
+                    continue
                 raise ValueError(who, "Blocks have different alignments.")
         mode = normalize_mode(who, mode)
 
